@@ -428,6 +428,8 @@ pub fn eval_un(op: &Un, t: Tl, o: Opts) -> Option<Tl> {
     Un::ObserveOn
     | Un::Delay(_)
     | Un::DelaySubscription(_)
+    | Un::DelayAt(_)
+    | Un::DelaySubscriptionAt(_)
     | Un::SubscribeOn
     | Un::Debounce(_)
     | Un::ThrottleTime(..)
